@@ -348,7 +348,20 @@ Definition ckpt_step (file : option checkpoint) (elapsed : Qc) (f : reaction -> 
             if Qcltb elapsed checkpoint_min_seconds then (r', None) else (r', Some (save r'))
   end.
 
-Inductive op := OSwitch | OSaveLoad.
+(* Reaction.ts setter (reaction.py:579-597): self.tss.clear() FIRST, then None -> nothing more,
+   a TransitionState -> appended (so it is the only one).  rxn.tss.append(t) adds one more. *)
+Definition set_tss (r : reaction) (l : list species) : reaction :=
+  mkR (reacs r) (prods r) l (rtype r) (rsolvent r) (rcharge r).
+Inductive op := OSwitch | OSaveLoad | OSetTS (t : option species) | OAppendTS (t : species).
 Definition run_op (o : op) (r : reaction) : reaction :=
-  match o with OSwitch => switch r | OSaveLoad => load (save r) (mkR [] [] [] None None 0%Z) end.
+  match o with
+  | OSwitch => switch r
+  | OSaveLoad => load (save r) (mkR [] [] [] None None 0%Z)
+  | OSetTS None => set_tss r []
+  | OSetTS (Some t) => set_tss r [t]
+  | OAppendTS t => set_tss r (tss r ++ [t])
+  end.
 Definition run_ops (ops : list op) (r : reaction) : reaction := fold_left (fun acc o => run_op o acc) ops r.
+(* is_barrierless: self.ts is None *)
+Definition is_barrierless (r : reaction) : bool :=
+  match lowest_ts (tss r) with LOk None => true | _ => false end.
